@@ -373,7 +373,7 @@ pub fn c16(tier: &str) -> ! {
 // C08: single injected I/O failure at every position
 // ------------------------------------------------------------------------------------------------
 
-pub fn run_faults(rep: &mut Report, label: &str, histories: Vec<History>, classes: u32, budget: Duration) {
+pub fn run_faults(rep: &mut Report, label: &str, histories: Vec<History>, classes: u32, partial_writes: bool, budget: Duration) {
     use crate::faultx::*;
     use crate::shm::*;
     use std::sync::Arc;
@@ -390,6 +390,7 @@ pub fn run_faults(rep: &mut Report, label: &str, histories: Vec<History>, classe
                     at_call: req["artefact"]["injection"]["failing_call_index"].as_u64().unwrap_or(0),
                     sticky: req["artefact"]["injection"]["mode"].as_str() == Some("sticky"),
                     classes,
+                    partial: partial_from_name(req["artefact"]["injection"]["failing_write_leaves"].as_str()),
                 };
                 let (r, o) = one_injection(h, Some(inj), classes);
                 let res = match (r.and_then(|r| r.violation), o) {
@@ -410,7 +411,7 @@ pub fn run_faults(rep: &mut Report, label: &str, histories: Vec<History>, classe
     let hs = Arc::new(histories.clone());
     let hs2 = Arc::clone(&hs);
     let shm2 = Arc::clone(&shm);
-    let (capped, machinery) = pool(hs.len(), workers(), &shm, Some(Instant::now() + budget), move |j| fault_job(&hs2[j], classes, &shm2));
+    let (capped, machinery) = pool(hs.len(), workers(), &shm, Some(Instant::now() + budget), move |j| fault_job(&hs2[j], classes, partial_writes, &shm2));
     for m in machinery {
         rep.machinery.push(format!("{}: {}", label, m));
     }
@@ -437,7 +438,7 @@ pub fn run_faults(rep: &mut Report, label: &str, histories: Vec<History>, classe
         if seen.insert(f.clause.clone()) {
             if let (Some(i), Some(mode)) = (f.point["failing_call_index"].as_u64(), f.point["mode"].as_str()) {
                 let h = histories.iter().find(|h| h.name == f.history).unwrap();
-                let inj = Injection { at_call: i, sticky: mode == "sticky", classes };
+                let inj = Injection { at_call: i, sticky: mode == "sticky", classes, partial: partial_from_name(f.point["failing_write_leaves"].as_str()) };
                 let again = |inj: Injection| -> Option<String> {
                     // isolated: an injection may abort the process
                     let shm = Shm::new(1 << 4, 1 << 16);
@@ -475,7 +476,7 @@ pub fn run_faults(rep: &mut Report, label: &str, histories: Vec<History>, classe
             let site = f.point["call_site"].as_str().unwrap_or("?").to_string();
             let mode = f.point["mode"].as_str().unwrap_or("?").to_string();
             let mut ops = f.ops.clone();
-            ops.push(format!("fault {} at {}", mode, site));
+            ops.push(format!("fault {} at {}{}", mode, site, match f.point["failing_write_leaves"].as_str() { Some(s) if s != "nothing written" => format!(" ({})", s), _ => String::new() }));
             rep.findings.push(Finding {
                 clause: f.clause.clone(),
                 detail: f.detail.clone(),
@@ -517,20 +518,24 @@ pub fn c08(tier: &str) -> ! {
     let mut rep = Report::new("C08", tier, "fault_enumeration");
     let t = tier == "thorough";
     if t {
-        run_faults(&mut rep, "covering", covering_histories(&["T300", "T300n", "M2", "M2n"]).into_iter().chain(shrink_history()).collect(), class::PROPERTY_SET | class::LIST, budget(tier, 40, 1800));
-        run_faults(&mut rep, "generated<=4", generated_histories(&["T300", "M2n"], 4), class::PROPERTY_SET, budget(tier, 40, 1200));
-        run_faults(&mut rep, "generated<=5", generated_histories(&["T300"], 5), class::PROPERTY_SET, budget(tier, 40, 1500));
-        run_faults(&mut rep, "generated<=3+all-classes", generated_histories(&["T300n", "M2", "L"], 3), class::ALL, budget(tier, 40, 900));
-        run_faults(&mut rep, "covering+reads", covering_histories(&["T300", "T300n", "M2", "M2n"]).into_iter().chain(shrink_history()).collect(), class::ALL, budget(tier, 40, 1200));
+        run_faults(&mut rep, "covering", covering_histories(&["T300", "T300n", "M2", "M2n"]).into_iter().chain(shrink_history()).collect(), class::PROPERTY_SET | class::LIST, false, budget(tier, 40, 1800));
+        run_faults(&mut rep, "generated<=4", generated_histories(&["T300", "M2n"], 4), class::PROPERTY_SET, false, budget(tier, 40, 1200));
+        run_faults(&mut rep, "generated<=5", generated_histories(&["T300"], 5), class::PROPERTY_SET, false, budget(tier, 40, 1500));
+        run_faults(&mut rep, "generated<=3+all-classes", generated_histories(&["T300n", "M2", "L"], 3), class::ALL, false, budget(tier, 40, 900));
+        run_faults(&mut rep, "covering+reads", covering_histories(&["T300", "T300n", "M2", "M2n"]).into_iter().chain(shrink_history()).collect(), class::ALL, false, budget(tier, 40, 1200));
         // only the read side fails (opening and reading files), writes stay healthy: a compaction
         // whose inputs cannot be read must not install a result that lacks their entries
-        run_faults(&mut rep, "read-side-faults", compaction_input_histories().into_iter().chain(covering_histories(&["T300", "T300n"])).collect(), class::READ | class::OPEN, budget(tier, 40, 600));
-        run_faults(&mut rep, "compaction-inputs+all-classes", compaction_input_histories(), class::ALL, budget(tier, 40, 600));
+        run_faults(&mut rep, "read-side-faults", compaction_input_histories().into_iter().chain(covering_histories(&["T300", "T300n"])).collect(), class::READ | class::OPEN, false, budget(tier, 40, 600));
+        run_faults(&mut rep, "compaction-inputs+all-classes", compaction_input_histories(), class::ALL, false, budget(tier, 40, 600));
+        run_faults(&mut rep, "covering/partial-writes", covering_histories(&["T300", "T300n", "M2", "M2n"]).into_iter().chain(shrink_history()).collect(), class::WRITE, true, budget(tier, 40, 1500));
+        run_faults(&mut rep, "generated<=4/partial-writes", generated_histories(&["T300", "M2n"], 4), class::WRITE, true, budget(tier, 40, 1200));
     } else {
-        run_faults(&mut rep, "read-side-faults", compaction_input_histories(), class::READ | class::OPEN, budget(tier, 15, 0));
-        run_faults(&mut rep, "covering", covering_histories(&["T300", "T300n", "M2", "M2n"]).into_iter().chain(shrink_history()).collect(), class::PROPERTY_SET | class::LIST, budget(tier, 30, 0));
-        run_faults(&mut rep, "covering+reads", covering_histories(&["M2"]), class::ALL, budget(tier, 15, 0));
-        run_faults(&mut rep, "generated<=3", generated_histories(&["T300", "M2n"], 3), class::PROPERTY_SET, budget(tier, 25, 0));
+        run_faults(&mut rep, "read-side-faults", compaction_input_histories(), class::READ | class::OPEN, false, budget(tier, 15, 0));
+        run_faults(&mut rep, "covering", covering_histories(&["T300", "T300n", "M2", "M2n"]).into_iter().chain(shrink_history()).collect(), class::PROPERTY_SET | class::LIST, false, budget(tier, 30, 0));
+        run_faults(&mut rep, "covering+reads", covering_histories(&["M2"]), class::ALL, false, budget(tier, 15, 0));
+        run_faults(&mut rep, "generated<=3", generated_histories(&["T300", "M2n"], 3), class::PROPERTY_SET, false, budget(tier, 25, 0));
+        // a failing write that has written part of its buffer (half, all but one byte, one header)
+        run_faults(&mut rep, "covering/partial-writes", covering_histories(&["T300", "M2n"]).into_iter().chain(shrink_history()).collect(), class::WRITE, true, budget(tier, 20, 0));
     }
     {
         use crate::props_sched::{c08_concurrent_programs, run_sched};
